@@ -96,11 +96,11 @@ theorem dispatch_shInv (hE : EnvOK env G) {e : Editor D L} (hi : EditorInv env G
 /-- **the edited state of every operation** (C02's `editPart`: after the editing part, before a commit
     path) satisfies the shared-state invariant -/
 theorem editPart_shInv (hE : EnvOK env G) {e : Editor D L} (hi : EditorInv env G e) (op : Op L) (hv : OpValid op)
-    (hk : ¬ Known env e op) (hc : Covered e op) {m : Shared D L} (hm : C02.editPart env e op = .ok m) :
+    (hk : ¬ Known env e op) {m : Shared D L} (hm : C02.editPart env e op = .ok m) :
     ShInv env G m := by
   have other : ∀ {e' : Editor D L}, e.apply env op = .ok e' → ShInv env G e'.shared := by
     intro e' he'
-    obtain ⟨e2, h2, hi2⟩ := apply_ok hE hi op hv hk hc
+    obtain ⟨e2, h2, hi2⟩ := apply_ok hE hi op hv hk
     rw [he'] at h2
     have := Outcome.ok.inj h2
     subst this
@@ -146,7 +146,8 @@ theorem editPart_shInv (hE : EnvOK env G) {e : Editor D L} (hi : EditorInv env G
   | jump w => exact viaApply rfl hm
 
 /-- **`TilesAlong` is a theorem**: along every history that is allowed in C01's sense (valid arguments,
-    outside the known class F02/F03, no `jump_*` on an open phrase list) from a state satisfying `EditorInv`,
+    outside the known class F02/F03; since the merge with fixA the `jump_*` calls on an open phrase list are
+    included — `Allowed` lost its `Covered` conjunct) from a state satisfying `EditorInv`,
     the conversion answer tiles the buffer at every edited state -/
 theorem tilesAlong_of_allowed (hE : EnvOK env G) (ops : List (Op L)) :
     ∀ e : Editor D L, EditorInv env G e → Allowed env e ops → C02.TilesAlong env e ops := by
@@ -154,9 +155,9 @@ theorem tilesAlong_of_allowed (hE : EnvOK env G) (ops : List (Op L)) :
   | nil => intro _ _ _; trivial
   | cons op ops ih =>
     intro e hi ha
-    obtain ⟨hv, hk, hc, hrest⟩ := ha
-    refine ⟨fun m hm => tilesAt_of_shInv hE (editPart_shInv hE hi op hv hk hc hm), fun e' he' => ?_⟩
-    obtain ⟨e2, h2, hi2⟩ := apply_ok hE hi op hv hk hc
+    obtain ⟨hv, hk, hrest⟩ := ha
+    refine ⟨fun m hm => tilesAt_of_shInv hE (editPart_shInv hE hi op hv hk hm), fun e' he' => ?_⟩
+    obtain ⟨e2, h2, hi2⟩ := apply_ok hE hi op hv hk
     rw [he'] at h2
     have := Outcome.ok.inj h2
     subst this
